@@ -21,7 +21,7 @@ ASSUMPTIONS = [
     "filehashstore.py / hashstore.py (checked by the loader on every run)",
     "primitive table: os/shutil/io/pathlib/tempfile/fcntl calls have their documented effect kinds; shutil.move "
     "inside one directory tree is rename(2)",
-    "logging and string formatting do not raise; an identifier claim does not raise after appending",
+    "logging, f-strings and literal-format `%` formatting do not raise (a non-literal format string does); an identifier claim does not raise after appending",
     "exceptional edges are over-approximated (any fallible call may raise); only 'on every path' rules are used",
     "library exceptions are never instances of the repository's own exception classes",
 ]
@@ -61,11 +61,16 @@ def run_property(prop, tier, A, seed):
             for p in problems[:20]:
                 print(f"ANALYSIS-ERROR property={prop} {p}")
             return 2
+        new_now, _o = split_known([f for r in rules for f in r.findings], [k for k in known.get("known", []) if k.get("property") == prop])
         for r in rules:
             # r.floor = instances confirmed by hand at the pinned commit.  A refactoring may
             # legitimately merge duplicated sites, so the run is refused only when a rule has
             # lost more than two thirds of them (or all): it then no longer sees its anchors.
             need = max(1, (r.floor + 2) // 3) if r.floor else 0
+            if len(r.instances) < need and new_now:
+                # a rule lost its anchors, but other rules of the property already report a violation: the verdict stands
+                print(f"note: rule {r.rid} matched {len(r.instances)} instance(s) (floor {r.floor}): anchors lost")
+                continue
             if len(r.instances) < need:
                 print(f"ANALYSIS-ERROR property={prop} rule {r.rid} matched {len(r.instances)} instance(s); {r.floor} were "
                       f"confirmed by hand and at least {need} are required — the rule lost its anchors (vacuous pass refused)")
